@@ -339,7 +339,7 @@ type fact struct {
 
 func extractCloseProto(repo, root string) error {
 	p := &pkgIndex{fset: token.NewFileSet(), fns: map[fnKey]*ast.FuncDecl{}}
-	for _, f := range []string{"writer.go", "reader.go", "consumergroup.go", "transport.go"} {
+	for _, f := range []string{"writer.go", "reader.go", "consumergroup.go", "transport.go", "dialer.go"} {
 		af, err := parser.ParseFile(p.fset, filepath.Join(repo, f), nil, 0)
 		if err != nil {
 			return err
@@ -787,6 +787,120 @@ func extractCloseProto(repo, root string) error {
 				r, ok := a.node.(*ast.ReturnStmt)
 				return ok && strings.Contains(p.src(r), ".Err()")
 			}) >= 0)
+
+	// ---- round 4: waits that only Close / the context may end, and connections on error paths
+	// everySelect: the function exists, has at least `min` select statements, and each of them has a receive branch
+	// whose channel expression contains one of `subs`
+	everySelect := func(recv, name string, min int, subs ...string) bool {
+		d := p.fns[fnKey{recv, name}]
+		if d == nil || d.Body == nil {
+			return false
+		}
+		n, all := 0, true
+		ast.Inspect(d.Body, func(m ast.Node) bool {
+			if sel, ok := m.(*ast.SelectStmt); ok {
+				n++
+				has := false
+				for _, cc := range sel.Body.List {
+					if c := cc.(*ast.CommClause); c.Comm != nil {
+						for _, s := range subs {
+							if strings.Contains(p.src(c.Comm), s) {
+								has = true
+							}
+						}
+					}
+				}
+				if !has {
+					all = false
+				}
+			}
+			return true
+		})
+		return n >= min && all
+	}
+	// (*reader).initialize: once the leader connection exists, every error branch closes it
+	initOK, nInit := true, 0
+	if d := p.fns[fnKey{"reader", "initialize"}]; d != nil && d.Body != nil {
+		ast.Inspect(d.Body, func(m ast.Node) bool {
+			ifs, ok := m.(*ast.IfStmt)
+			if !ok || !strings.Contains(p.src(ifs.Cond), "err != nil") {
+				return true
+			}
+			onlyContinue := len(ifs.Body.List) == 1
+			if onlyContinue {
+				_, onlyContinue = ifs.Body.List[0].(*ast.BranchStmt)
+			}
+			if onlyContinue {
+				return true // the dial itself failed: there is no connection
+			}
+			nInit++
+			if !hasCall(ifs.Body, false, "Close") {
+				initOK = false
+			}
+			return true
+		})
+	} else {
+		initOK = false
+	}
+	add("initializeClosesConnOnError", "(*reader).initialize: when reading the offsets or the seek fails, the leader connection is closed before the error is reported", initOK && nInit >= 2)
+	// (*Reader).ReadLag: the probe's connection is closed in every iteration (unconditional statement of the loop body)
+	lagClose := false
+	if d := p.fns[fnKey{"Reader", "ReadLag"}]; d != nil && d.Body != nil {
+		ast.Inspect(d.Body, func(m ast.Node) bool {
+			if rs, ok := m.(*ast.RangeStmt); ok && hasCall(rs.Body, false, "DialLeader") {
+				for _, st := range rs.Body.List {
+					switch x := st.(type) {
+					case *ast.ExprStmt:
+						if c, ok := x.X.(*ast.CallExpr); ok && endsWith(c.Fun, "Close") {
+							lagClose = true
+						}
+					case *ast.DeferStmt:
+						if endsWith(x.Call.Fun, "Close") {
+							lagClose = true
+						}
+					}
+				}
+			}
+			return true
+		})
+	}
+	add("readLagClosesItsConnection", "(*Reader).ReadLag: the connection dialled for a probe is closed unconditionally in the same iteration", lagClose)
+	add("readLagLoopEndsWithContext", "(*Reader).readLag: the wait between two probes selects on ctx.Done()", everySelect("Reader", "readLag", 1, "Done()"))
+	add("runWaitsSelectOnDone", "(*ConsumerGroup).run: delivering the error and the back-off both select on cg.done", everySelect("ConsumerGroup", "run", 2, "done"))
+	add("sleepEndsWithContext", "sleep(ctx, d): every select has a ctx.Done() branch", everySelect("", "sleep", 1, "Done()"))
+	add("nextSelectsOnDone", "(*ConsumerGroup).Next: selects on cg.done (ErrGroupClosed) and on ctx.Done()", everySelect("ConsumerGroup", "Next", 1, "cg.done") && everySelect("ConsumerGroup", "Next", 1, "Done()"))
+	add("generationLoopsEndWithGeneration", "(*Generation).heartbeatLoop / partitionWatcher: their loops select on ctx.Done()",
+		everySelect("Generation", "heartbeatLoop", 1, "Done()") && everySelect("Generation", "partitionWatcher", 1, "Done()"))
+	gcl := p.flatten(p.fns[fnKey{"Generation", "close"}], 0)
+	add("generationCloseWaitsForRoutines", "(*Generation).close: waits on g.joined when goroutines were started",
+		firstIdx(gcl, func(a atom) bool { return strings.Contains(a.text, "<-") && strings.Contains(a.text, "joined") }) >= 0)
+	// grabConnOrConnect: a connect that completes after the caller's context ended releases the connection or closes it
+	late := false
+	if d := p.fns[fnKey{"connGroup", "grabConnOrConnect"}]; d != nil && d.Body != nil {
+		ast.Inspect(d.Body, func(m ast.Node) bool {
+			if fl, ok := m.(*ast.FuncLit); ok {
+				ast.Inspect(fl.Body, func(k ast.Node) bool {
+					if c, ok := k.(*ast.CommClause); ok && c.Comm != nil && strings.Contains(p.src(c.Comm), "Done()") {
+						for _, st := range c.Body {
+							if hasCall(st, false, "releaseConn") || hasCall(st, false, "close") || hasCall(st, false, "Close") {
+								late = true
+							}
+						}
+					}
+					return true
+				})
+			}
+			return true
+		})
+	}
+	add("lateConnectReleasesOrCloses", "(*connGroup).grabConnOrConnect: the background connect, when nobody waits any more, releases the connection to the pool or closes it", late)
+	un := p.flatten(p.fns[fnKey{"connPool", "unref"}], 0)
+	nIdle := len(filterIdx(un, func(a atom) bool { return stmtOnly(a) && hasCall(a.node, false, "closeIdleConns") }))
+	add("poolUnrefClosesConnectionsAndCancels", "(*connPool).unref: the last reference closes the idle connections of every broker group and of the control group, and cancels the pool's context",
+		nIdle >= 2 && firstIdx(un, func(a atom) bool { return stmtOnly(a) && hasCall(a.node, false, "cancel") }) >= 0)
+	wc := get("Writer", "Close")
+	add("writerCloseClosesItsOwnTransport", "(*Writer).Close: after group.Wait(), the connections of the writer's own transport are closed",
+		before(firstIdx(wc, callAtom(false, "group", "Wait")), firstIdx(wc, callAtom(false, "CloseIdleConnections"))))
 
 	// ---- emit
 	sort.SliceStable(facts, func(i, j int) bool { return false })
